@@ -17,6 +17,8 @@ class FrontServer(object):
         from kmip.services.server import server as kmip_server
         from kmip.services.server import engine as server_engine
         from kmip.core import policy as operation_policy
+        import keygen_cap
+        keygen_cap.install()
         self.dir = tempfile.mkdtemp(prefix="front-", dir="/dev/shm" if os.access("/dev/shm", os.W_OK) else None)
         for name in ("server.crt", "server.key", "ca.crt"):
             with open(os.path.join(self.dir, name), "w") as f:
